@@ -6,7 +6,8 @@ loader sources with malloc / calloc / realloc / free renamed to a ledger that co
 the K-th one fail, moves the block on every realloc and records the size of every block handed to free.  For every
 input and every K from 0 (no failure) to one past the number of requests the loader makes, model and code must agree on
 
-    return value and errno class | number of requests | sizes of the blocks freed at `out:` (in call order) | blocks left
+    return value and errno class | number of requests | sizes of the blocks freed at `out:` (in call order) | blocks left |
+    digest of the destination (type, rows, columns, frequencies, file type, z0 mode, precisions; coq/Files/LoadFail.v)
 
 and the C side must run without a sanitizer report, leave no parser block, and leave a destination that is either
 untouched or an initialised object whose dimensions fit its type (every cell, frequency and impedance is read back).
@@ -97,6 +98,31 @@ def directed_ts():
     out.append(("ref-before-ports", "x.ts", "[Version] 2.0\n# GHz S RI R 50\n[Reference] 50\n[Number of Ports] 1\n"))
     out.append(("ref-in-info", "x.ts", "[Version] 2.0\n# GHz S RI R 50\n[Number of Ports] 1\n[Begin Information]\n[Reference] 75\n"
                 "[End Information]\n[Number of Frequencies] 1\n[Network Data]\n1 0.5 0.25\n[End]\n"))
+    # the destination at the failure exits: decisions acted on only after the next token was read (a version-1 line, the
+    # checks after [Network Data]), followed by a good token, a long word (one more growth of the text), an unexpected
+    # character, end of file
+    v2h = "[Version] 2.0\n# GHz Z RI R 50\n[Number of Ports] 1\n[Number of Frequencies] 2\n"
+    for tag, nxt in (("eof", ""), ("word", "abc"), ("long", "a" * 100), ("bad", "$"), ("kw", "[End]"), ("badkw", "[" + "x" * 70 + "]"),
+                     ("num", "3 0.5 0.25\n")):
+        out.append(("late-v1-evenline-" + tag, "x.s1p", opt + "1 2\n" + nxt))
+        out.append(("late-v1-goodline-" + tag, "x.s1p", opt + "1 0.5 0.25\n" + nxt))
+        out.append(("late-v1-negfreq-" + tag, "x.s1p", opt + "-1 0.5 0.25\n" + nxt))
+        out.append(("late-v1-decreasing-" + tag, "x.s1p", opt + "2 0.5 0.25\n1 0.5 0.25\n" + nxt))
+        out.append(("late-v1-4port-" + tag, "x.s4p", opt + "1 1 2 3 4 5 6 7 8\n 1 2 3 4 5 6 7 8\n" + nxt))
+        out.append(("late-v1-hg-" + tag, "x.s2p", "# GHz H RI R 50\n1 2 3\n" + nxt))
+        out.append(("late-v2-netdata-" + tag, "x.ts", v2h + "[Network Data]\n" + nxt))
+        out.append(("late-v2-nofreqs-" + tag, "x.ts", "[Version] 2.0\n# GHz Z RI R 50\n[Number of Ports] 1\n[Network Data]\n" + nxt))
+        out.append(("late-v2-order-" + tag, "x.ts", "[Version] 2.0\n# GHz Z RI R 50\n[Number of Ports] 2\n[Number of Frequencies] 1\n[Network Data]\n" + nxt))
+        out.append(("late-v2-ref-" + tag, "x.ts", "[Version] 2.0\n# GHz Z RI R 50\n[Number of Ports] 1\n[Number of Frequencies] 2\n[Reference] 75\n[Network Data]\n" + nxt))
+    out.append(("dest-v2-partial", "x.ts", v2h + "[Network Data]\n1 0.5 0.25\n2 0.5\n"))
+    out.append(("dest-v2-decreasing", "x.ts", v2h + "[Network Data]\n2 0.5 0.25\n1 0.5 0.25\n"))
+    out.append(("dest-v2-ok", "x.ts", v2h + "[Network Data]\n1 0.5 0.25\n2 0.5 0.25\n[End]\n"))
+    out.append(("dest-v2-extra", "x.ts", v2h + "[Network Data]\n1 0.5 0.25\n2 0.5 0.25\n[End]\nx\n"))
+    out.append(("dest-v1-in-ts", "x.ts", opt + "1 0.5 0.25\n"))
+    out.append(("dest-v2-in-s1p", "x.s1p", v2h + "[Network Data]\n1 0.5 0.25\n2 0.5 0.25\n[End]\n"))
+    out.append(("dest-hdr-only", "x.s1p", opt))
+    out.append(("dest-hdr-bad", "x.s1p", "# GHz S RI R 50 bogus\n1 0.5 0.25\n"))
+    out.append(("dest-version3", "x.ts", "[Version] 3.0\n"))
     for L in (62, 63, 64, 65, 126, 127, 128, 129, 254, 255, 256, 257):
         # a long word inside a data line, in the option line, as a keyword argument, as keyword text
         out.append(("word-data-%d" % L, "x.s1p", opt + "1 0.%s 0\n" % ("5" * (L - 2))))
@@ -122,6 +148,22 @@ def directed_npd():
     out.append(("npd-fz0", "x.npd", "#:ports 2\n#:frequencies 2\n#:parameters Sri\n#:z0 PER-FREQUENCY\n1 50 0 75 1 1 2 3 4 5 6 7 8\n"
                 "2 50 0 75 1 1 2 3 4 5 6 7 8\n"))
     out.append(("npd-z0-0ports", "x.npd", "#:ports 0\n#:frequencies 1\n#:parameters Zinri\n#:z0\n1\n"))
+    # the destination at the failure exits
+    h2 = "#:ports 2\n#:frequencies 2\n#:parameters Sri\n"
+    out.append(("npd-dest-prec", "x.npd", "#:fprecision 3\n#:dprecision 0\n" + h2 + "1 1 2 3 4 5 6 7 8\n2 1 2 3 4 5 6 7 8\n"))
+    out.append(("npd-dest-prec-then-bad", "x.npd", "#:fprecision 9\n#:dprecision 1001\n" + h2))
+    out.append(("npd-dest-params-bad", "x.npd", "#:ports 2\n#:frequencies 2\n#:parameters bogus\n"))
+    out.append(("npd-dest-short-line", "x.npd", h2 + "1 1 2 3 4 5 6 7 8\n2 1 2 3\n"))
+    out.append(("npd-dest-bad-freq", "x.npd", h2 + "1 1 2 3 4 5 6 7 8\nx 1 2 3 4 5 6 7 8\n"))
+    out.append(("npd-dest-bad-cell", "x.npd", h2 + "1 1 2 3 4 5 6 7 8\n2 1 2 3 x 5 6 7 8\n"))
+    out.append(("npd-dest-missing-line", "x.npd", h2 + "1 1 2 3 4 5 6 7 8\n"))
+    out.append(("npd-dest-extra-line", "x.npd", h2 + "1 1 2 3 4 5 6 7 8\n2 1 2 3 4 5 6 7 8\n3 1 2 3 4 5 6 7 8\n"))
+    out.append(("npd-dest-no-freqs", "x.npd", "#:ports 2\n#:frequencies 0\n#:parameters Sri\n"))
+    out.append(("npd-dest-no-params", "x.npd", "#:ports 2\n#:frequencies 2\n1 1 2 3 4 5 6 7 8\n"))
+    out.append(("npd-dest-zin", "x.npd", "#:ports 3\n#:frequencies 1\n#:parameters Zinri\n#:z0 50 0 60 0 70 0\n1 1 2 3 4 5 6\n"))
+    out.append(("npd-dest-fz0-badz", "x.npd", "#:ports 1\n#:frequencies 2\n#:parameters Sri\n#:z0 PER-FREQUENCY\n1 50 0 1 2\n2 50 x 1 2\n"))
+    out.append(("npd-dest-fz0-badcell", "x.npd", "#:ports 1\n#:frequencies 2\n#:parameters Sri\n#:z0 PER-FREQUENCY\n1 50 0 1 2\n2 50 0 1 x\n"))
+    out.append(("npd-dest-unknown-kw", "x.npd", "#:ports 2\n#:bogus 1\n"))
     return out
 
 
@@ -143,7 +185,7 @@ def _split(line):
     for p in parts:
         k, _, v = p.partition(" ")
         d[k] = v
-    core = " | ".join(parts[:4])
+    core = " | ".join(parts[:5])
     return core, d
 
 
@@ -160,7 +202,7 @@ def run(ctx, inputs):
         (ts if T.is_touchstone_name(name) else npd).append((cid, name, text))
     rng.shuffle(ts)
     rng.shuffle(npd)
-    nts, nnpd = (1200, 500) if quick else (12000, 5000)
+    nts, nnpd = (800, 350) if quick else (12000, 5000)
     lt = [("L-" + lab, name, text) for lab, name, text in tstone_ties.long_token_inputs(rng, ctx.tier) if T.is_touchstone_name(name)]
     if quick:
         rng.shuffle(lt)
@@ -176,7 +218,7 @@ def run(ctx, inputs):
     keys = [(x[0], 0) for x in ts] + [(x[0], 0) for x in npd]
     c_lines = H.white(cmds)
     # ---- round 2: every request of a sample fails once ---------------------------------------------------------------
-    nfail_ts, nfail_npd = (260, 160) if quick else (3000, 1500)
+    nfail_ts, nfail_npd = (180, 110) if quick else (3000, 1500)
     cmds2, keys2 = [], []
     counts = {}
     for x, cl in zip(ts + npd, c_lines):
@@ -245,8 +287,9 @@ def run(ctx, inputs):
                 ctx.traces_validated += 1
             continue
         if ml != core:
+            mp, cp = ml.split(" | "), core.split(" | ")
             cls = "fault-in-model" if ml.startswith("FAULT") else \
-                  ("outcome" if ml.split(" | ")[0] != core.split(" | ")[0] else "ledger")
+                  ("outcome" if mp[0] != cp[0] else ("ledger" if mp[:4] != cp[:4] else "destination-model"))
             bad(cls, key, "model %s / C %s" % (ml, core), {"c": cl, "model": ml})
             continue
         stats["compared"] += 1
@@ -255,6 +298,10 @@ def run(ctx, inputs):
     ctx.obligation("tie:parser_buffers[ledger,capacities,alloc-failure]", not classes,
                    "%d runs (%d with a failing request) of %d Touchstone and %d NPD inputs; %d compared with the model, %d C-only; %s"
                    % (len(cmds), stats["failure_runs"], len(ts), len(npd), stats["compared"], stats["c_only"], classes or "no disagreement"))
+    dcls = dict((k, v) for k, v in classes.items() if k.startswith("destination"))
+    ctx.obligation("tie:destination_after_load[digest,every-outcome]", not dcls,
+                   "%d runs: type, rows, columns, frequencies, file type, z0 mode and precisions of the destination after the "
+                   "call vs coq/Files/LoadFail.v; %s" % (stats["compared"], dcls or "no disagreement"))
     ctx.extra["parser_buffer_runs"] = dict(stats, runs=len(cmds), classes=classes)
     ctx.log("C09(mem): %d runs, %d compared with the model, classes %s" % (len(cmds), stats["compared"], classes))
 
